@@ -22,11 +22,12 @@ pub static PROP: Prop = Prop {
     fixed: noop_fixed,
     replay: Some(replay),
     breadcrumb: false,
+    fuzz: &[Fuzz { target: "choice", choice: true, runs: 300000, max_len: 800 }],
 };
 
 fn budget(t: Tier) -> Budget {
     Budget {
-        cases: t.pick(250_000, 4_000_000),
+        cases: t.pick(3_000_000, 40_000_000),
         max_len: 200,
         shards: 16,
         dual_profile: false,
